@@ -40,7 +40,7 @@ def setup():
 @st.composite
 def header(draw, names):
     taken = {n.upper() for n in names}
-    keys = draw(st.lists(Y.ident.filter(lambda k: k.upper() not in taken), max_size=4, unique_by=lambda k: k.upper()))
+    keys = draw(st.lists(Y.keyword.filter(lambda k: k.upper() not in taken), max_size=4, unique_by=lambda k: k.upper()))
     return [[k, draw(Y.header_value())] for k in keys]
 
 
